@@ -55,6 +55,8 @@ fn main() {
         ("drive", "bigsst") => props::bigsst::drive(&args),
         ("replay", "datatype") => props::datatype::replay(&args),
         ("replay", "dims") => props::datatype::replay_dims(&args),
+        ("replay", "range_views") => props::range_views::replay(&args),
+        ("drive", "range_views") => props::range_views::drive(&args),
         ("replay", "stored_formula") => props::stored_formula::replay(&args),
         ("drive", "stored_formula") => props::stored_formula::drive(&args),
         ("replay", "bin_text") => props::bin_text::replay(&args),
